@@ -89,6 +89,9 @@ EXPRS += [
     # chunk iteration: what a footer reports as its slice (`self` is the footer, by address)
     ("expr", "src/lib.rs", "as_raw_parts", ("let", "ptr", 1), "chunk_parts_ptr"),
     ("expr", "src/lib.rs", "as_raw_parts", ("let", "len", 1), "chunk_parts_len"),
+    # ChunkRawIter::next: the end test and the step to the previous footer
+    ("expr", "src/lib.rs", "impl:Iterator for ChunkRawIter:next", ("if", 1), "raw_iter_done"),
+    ("expr", "src/lib.rs", "impl:Iterator for ChunkRawIter:next", ("assign", "footer", 1), "raw_iter_advance"),
     # the capacity constructor: the two assertions, the zero test, the layout asked for, and that no
     # size is "given" to new_chunk_memory_details (so the default chunk size is the floor)
     ("expr", "src/lib.rs", "try_with_min_align_and_capacity", ("assert", 1), "ctor_align_is_pow2"),
